@@ -871,7 +871,7 @@ def roundtrip_units():
     out = []
     for cls in MESSAGE_CLASSES:
         out.append(Unit(prop="*", name=f"L3/message-roundtrip[{cls}]", func="stabilize.queue.sqlite.serialization:deserialize_message",
-                        params=[], names=STATUS_NAMES, registry=reg, replayable=False, run=_roundtrip_run(cls),
+                        params=[], names=STATUS_NAMES, registry=reg, replayable=False, run=_roundtrip_run(cls), native_script="message_roundtrip.py",
                         obligations=[Obl("C19/messages", _roundtrip_post(cls), when="any")]))
     out.append(Unit(prop="*", name="L1/push_message+poll_one", func=Q + "queue:SqliteQueue.poll_one", params=[], names=STATUS_NAMES,
                     registry=reg, replayable=False, run=_push_poll_run,
@@ -1279,9 +1279,10 @@ def task_units():
              params=[("conn", lambda ctx: SNone), ("task", ("obj", "TaskExecution")), ("stage_id", ("str",))], setup=_upsert_setup,
              obligations=[Obl("C07/G-task", _upsert_post, when="any"), Obl("C06/durable-write-is-guarded/task", _upsert_post, when="any")]),
         Unit(prop="*", name="L1/upsert_task+row_to_task", func=P + "converters:row_to_task", params=[], names=STATUS_NAMES, registry=reg,
-             replayable=False, run=_task_roundtrip_run, obligations=[Obl("C19/store/task-row-roundtrip", _task_roundtrip_post, when="any")]),
+             replayable=False, run=_task_roundtrip_run, native_script="task_row_roundtrip.py",
+             obligations=[Obl("C19/store/task-row-roundtrip", _task_roundtrip_post, when="any")]),
         Unit(prop="*", name="L1/upsert_task(existing)+row_to_task", func=P + "converters:row_to_task", params=[], names=STATUS_NAMES, registry=reg,
-             replayable=False, run=lambda ctx: _task_roundtrip_run(ctx, existing=True),
+             replayable=False, run=lambda ctx: _task_roundtrip_run(ctx, existing=True), native_script="task_row_roundtrip.py",
              obligations=[Obl("C19/store/task-row-roundtrip-update", _task_roundtrip_post, when="any")]),
     ]
 
